@@ -299,6 +299,18 @@ class Machine(object):
                             cf.addcolumn(set(range(nrows)), newname)
                         else:
                             cf.addcolumn(dict((q, q) for q in range(nrows)), newname)
+                    elif name == "invalid_reorder":
+                        how = op.get("how", "long")
+                        if how in ("long", "str", "dict") or nrows < 4:
+                            cf.reorder(np.arange(bad) % nrows)                  # too many indices
+                        elif how == "ragged":
+                            cf.reorder(np.arange(nrows - 1))                    # too few (more than one: no broadcasting)
+                        else:
+                            msk = np.zeros(nrows, bool)
+                            msk[:2 + op["extra"] % (nrows - 2)] = True         # a boolean mask passed by mistake
+                            if msk.all():
+                                return None
+                            cf.reorder(msk)
                     elif name == "invalid_filter":
                         cf.filter(np.ones(bad, bool))
                     elif name == "invalid_setattr":
@@ -359,7 +371,7 @@ def gen_ops(rnd, nops):
                ("setattr_array", 3), ("setitem_scalar", 2), ("setattr_scalar", 3), ("addcolumn_from_existing", 2),
                ("write_attr", 3), ("write_item", 2), ("write_getcolumn", 2), ("filter", 4), ("removerows", 3), ("sortby", 3),
                ("reorder", 3), ("copy", 2), ("copyrows", 3), ("get_bigarray", 4), ("set_bigarray", 2), ("keys", 1),
-               ("invalid_addcolumn", 2), ("invalid_filter", 1), ("invalid_setattr", 1), ("invalid_set_bigarray", 1), ("reread", 2)]
+               ("invalid_addcolumn", 2), ("invalid_filter", 1), ("invalid_setattr", 1), ("invalid_set_bigarray", 1), ("invalid_reorder", 1), ("reread", 2)]
     names = [n for n, w in weights for _ in range(w)]
     for _ in range(nops):
         n = rnd.choice(names)
